@@ -32,6 +32,8 @@ pub enum Piece {
     GetExpect,
     /// nine pipelined GETs in one write (long pipelines; large answer batches)
     Many,
+    /// a PUT whose head plus body is exactly two or three receive windows (2048 / 3072 bytes), in one write
+    Aligned,
 }
 
 #[derive(Clone, Copy, Debug, PartialEq, Eq)]
@@ -96,6 +98,7 @@ fn piece_name(p: Piece) -> &'static str {
         Piece::Oversize => "oversize",
         Piece::GetExpect => "getexpect",
         Piece::Many => "many",
+        Piece::Aligned => "aligned",
     }
 }
 fn parse_piece(s: &str) -> Option<Piece> {
@@ -112,6 +115,7 @@ fn parse_piece(s: &str) -> Option<Piece> {
         "oversize" => Piece::Oversize,
         "getexpect" => Piece::GetExpect,
         "many" => Piece::Many,
+        "aligned" => Piece::Aligned,
         _ => return None,
     })
 }
@@ -278,6 +282,26 @@ pub fn apply(sim: &mut Sim, a: &Act) -> Applied {
                         sim.gens[gi].completed.extend(tags);
                     } else {
                         sim.gens[gi].send_failed = true;
+                    }
+                }
+                Piece::Aligned => {
+                    // pick the body length so that the whole request is a multiple of the 1024-byte window
+                    let (tag, probe) = sim.next_request(gi, ReqKind::PutBody(1000));
+                    let head = probe.len() - 1000;
+                    let windows = 2 + sim.step % 2;
+                    let mut body_len = windows * 1024 - head;
+                    // the declared length has a fixed number of digits in this range; correct if it changed
+                    let mut bytes = crate::sim::make_request(&tag, ReqKind::PutBody(body_len));
+                    if bytes.len() != windows * 1024 {
+                        body_len = (body_len as isize + (windows * 1024) as isize - bytes.len() as isize) as usize;
+                        bytes = crate::sim::make_request(&tag, ReqKind::PutBody(body_len));
+                    }
+                    let n = sim.send_bytes(gi, &bytes);
+                    if n == bytes.len() {
+                        sim.gens[gi].completed.push(tag);
+                    } else {
+                        sim.gens[gi].pending_rest = Some(bytes[n..].to_vec());
+                        sim.gens[gi].completed.push(format!("?{}", tag));
                     }
                 }
                 Piece::Expect => {
